@@ -14,6 +14,10 @@ RULE = ("auth (L1): the real handlers obtained from the app's MsgServiceRouter (
         "authtx (L2): the full app through BeginBlock/DeliverTx/EndBlock/Commit with signed zero-fee transactions, one per block: every privileged handler (29: MsgUpdateSwapFeeParams is "
         "subject to the 0.1-rowan ante floor and left to L1) direct and wrapped in authz.MsgExec by its role holder and by a stranger, plus spoofed (msg.Signer = a role holder, "
         "transaction signed by a stranger; directly and as MsgExec without grant); then the table evolving through AddAccount/RemoveAccount transactions. Hash over all stores but auth. "
+        "Worlds: the three role stores come from the genesis file (InitGenesis): x/admin entries for the set-up roles in canonical lower case plus, each with probability 3/4, entries in other "
+        "spellings (MARGIN for #11 [always], ADMIN for #12, CLPDEX for #13, TOKENREGISTRY for #5 in upper case; PMTPREWARDS for a non-address; ETHBRIDGE for a mixed-case, invalid spelling); the oracle admin "
+        "and one clp-whitelist member in upper or lower case. The cfg lines give the x/admin table from the RAW store keys. Directed: a genesis upper-case entry is used, 'removed' under the canonical "
+        "spelling (accepted), used again; export->import round trips of the x/admin state (ExportGenesis, wipe, InitGenesis) at the start and 1 iteration in 40 (L1) / once (L2). "
         "Spellings: bech32 is case-insensitive, so every account also has an all-upper-case spelling. AddAccount/RemoveAccount name the account, independently per message, in lower case (5/8), "
         "in upper case (2/8) or by a string that is no address (1/8) - so roles get granted under one spelling and removed under another; the Signer field (1 message in 5) and the other "
         "address-typed payload fields (WhitelistedAddress, CethReceiverAccount, CosmosReceiver, Validator; 1 in 4) use the upper-case form; directed histories grant/use/remove/use in lower case, "
@@ -41,7 +45,8 @@ ASSUMPTIONS = [
     "the canonical string of the account a spelling denotes (AccAddressFromBech32(..).String()) is an environment value supplied by the harness from cosmos-sdk's bech32 code",
 ]
 UNPROVED = [
-    "entries put into the role table by genesis (not by a message) may be spelled non-canonically; they never authorise anyone and can no longer be removed by message (F24 repair rejects the spelling)",
+    "entries put into the role table by genesis (not by a message) may be spelled non-canonically; they never authorise anyone (fact adminCompare = stringEq, exercised by the genesis worlds) and "
+    "cannot be removed by message (F24 repair rejects the spelling); export/import round trips are exercised for x/admin only, not for the oracle admin / clp whitelist",
     "that each real handler is an instance of the abstract 'statements; guard; body' model with the recorded statement kinds is established by the syntactic translator and "
     "exercised by the matrix (result class + whole-multistore hash), not proved from Go semantics",
     "bodies of the handlers after the guard (what an authorised message does) are not modelled here, except AddAccount/RemoveAccount on the role table",
